@@ -713,6 +713,17 @@ Definition evaluate (fuel : nat) (host : list ctxrec) (c : nat) (data : option v
   | (s1, r) => (s1, r)
   end.
 
+(* YaqlInterface(context, engine)(expression, *args, **kwargs) on a HOST context chain: the parameters are bound in a
+   fresh child of the host's context ($1..$n and $name), the expression is evaluated there and the result finalised;
+   nothing is written to a context of the host (not even `$`). *)
+Definition iface_call (fuel : nat) (host : list ctxrec) (c : nat) (pos : list val) (kw : list (str * val)) (e : expr)
+  : st * res val :=
+  let '(s1, c1) := alloc {| heap := host; log := [] |} {| cparent := Some c; cdata := number_from 1 pos ++ kw; cfuncs := [] |} in
+  match eval fuel s1 c1 e with
+  | (s2, Ok v) => finalize fuel s2 v
+  | (s2, r) => (s2, r)
+  end.
+
 (* ---- correspondence ---- *)
 Fixpoint val_same (a b : val) {struct a} : bool :=
   match a, b with
